@@ -466,3 +466,4 @@ PROPS["C15"]["level_text"] += " A source file may also shrink while its entry is
 PROPS["C17"]["level_text"] += " A third of the cases add in-band chatter both ways every 60 ms from the server's first tunnel line until the transfer is over: it must end within 22 s all the same."
 PROPS["C19"]["level_text"] += " In half of the cases the first thing after the hand-back is the user typing (keys with an erase, or a lone Ctrl-C) while the server stays quiet: all of it reaches the server."
 PROPS["C20"]["level_text"] += " The terminal may be resized while the bar is paused."
+PROPS["C01"]["level_text"] += " A 'long line' profile delivers everything the receiver writes 0.6-2.2 s late (the sender's chunk-size adaptation then takes its slow branches)."
